@@ -120,7 +120,18 @@ mod verif_xml_escape {
         assert!(sink.i == len, "un-escaping gives the whole input back");
         assert!(sink.total <= 36, "at most 6 octets per input octet");
     }}
-    //@harness xml_escape_kb_n4 Kb fn=TextEscape::write_escaped bound="texts of at most 4 octets, every octet value, both modes"
+    //@harness xml_escape_kb_n2 Kb fn=TextEscape::write_escaped bound="texts of at most 2 octets, every octet value, both modes"
+    verif_harness!{ #[kani::unwind(4)] xml_escape_kb_n2; |attr: bool, b: [u8; 6], len: usize| {
+        assume(len <= 2);
+        let mode = if attr { TextEscape::Attr } else { TextEscape::Pcdata };
+        let mut sink = Unesc { attr, inp: b, n: len, i: 0, bad: false, total: 0 };
+        let r = mode.write_escaped(&b[..len], &mut sink);
+        assert!(r.is_ok(), "writing to a sink that never fails succeeds");
+        assert!(!sink.bad, "no raw special character, only the five entities, decoded characters equal the input");
+        assert!(sink.i == len, "un-escaping gives the whole input back");
+        assert!(sink.total <= 12, "at most 6 octets per input octet");
+    }}
+    //@harness xml_escape_kb_n4 Kb fn=TextEscape::write_escaped timeout=2400 thorough bound="texts of at most 4 octets, every octet value, both modes"
     verif_harness!{ #[kani::unwind(6)] xml_escape_kb_n4; |attr: bool, b: [u8; 6], len: usize| {
         assume(len <= 4);
         let mode = if attr { TextEscape::Attr } else { TextEscape::Pcdata };
